@@ -103,7 +103,7 @@ fn program_lines(choices: &[u32]) -> Vec<String> {
 
 fn prose_ok(text: &str) -> bool {
   static CACHE: std::sync::OnceLock<Vec<bool>> = std::sync::OnceLock::new();
-  let cache = CACHE.get_or_init(|| PROSE.iter().map(|p| match parse_src(p) { Parsed::Prose(t) => element_kinds(&t).iter().all(|k| !k.starts_with("MechCode") && !k.starts_with("FencedMechCode(ns=0,disabled=false") && !k.starts_with("FencedMechCode(ns=named,disabled=false") && k != "Error"), _ => false }).collect());
+  let cache = CACHE.get_or_init(|| PROSE.iter().map(|p| match parse_src(p) { Parsed::Prose(t) => element_kinds(&t).iter().all(|k| !k.starts_with("MechCode") && !k.starts_with("FencedMechCode(ns=0,disabled=false") && !k.starts_with("FencedMechCode(ns=named,disabled=false") && k != "Error"), Parsed::Code(t, _) => comment_only(&t), _ => false }).collect());
   PROSE.iter().position(|p| *p == text).map(|i| cache[i]).unwrap_or(false)
 }
 
@@ -128,7 +128,7 @@ fn build_doc(c: &Case) -> (String, Vec<Vec<String>>, usize, bool, usize) {
   }
   if c.error_in != 0 && (c.error_in as usize) < progs.len() {
     let pi = c.error_in as usize;
-    parts.push(format!("```mech:{}\nbroken := undefined_zz + 1\n```", NAMES[c.names[pi - 1] as usize % NAMES.len()]));
+    parts.push(format!("```mech:{}\nbroken := zzq + 1\n```", NAMES[c.names[pi - 1] as usize % NAMES.len()]));
   }
   if let Some(pr) = c.prose.last() { if *pr != 255 { let text = PROSE[*pr as usize % PROSE.len()]; if prose_ok(text) { parts.push(text.to_string()); nprose += 1; } } }
   let sep = if c.tight { "\n" } else { "\n\n" };
@@ -154,7 +154,7 @@ fn check(c: &Case) -> Verdict {
   }
   let res = run_document(&doc);
   let (kinds, out, main, named) = match res {
-    Err(why) => { if c.tight { v.discard("tight document did not parse"); } else { v.label("doc_parse_failed"); v.discard(format!("doc_parse_failed: {}", why.chars().take(30).collect::<String>())); } return v; }
+    Err(why) => { if c.tight { v.discard("tight document did not parse"); } else if std::env::var("C10_DEBUG_PARSE").is_ok() { v.fail("C10|debug-doc-parse", format!("{}\n{}", why, doc)); } else { v.label("doc_parse_failed"); v.discard(format!("doc_parse_failed: {}", why.chars().take(30).collect::<String>())); } return v; }
     Ok(x) => x,
   };
   v.label(format!("programs:{}", per_ns.iter().filter(|p| !p.is_empty()).count()));
@@ -192,3 +192,7 @@ fn check(c: &Case) -> Verdict {
 
 fn show_snap(s: &Snapshot) -> String { format!("{{{}}}", s.iter().map(|(k, v)| format!("{}={}", k, v.show())).collect::<Vec<_>>().join(", ")) }
 fn first_odd_kind(kinds: &[String]) -> String { kinds.iter().find(|k| k.as_str() == "Error").cloned().unwrap_or_else(|| "no-error-element".into()) }
+
+fn comment_only(t: &mech_core::Program) -> bool {
+  t.body.sections.iter().all(|s| s.elements.iter().all(|e| match e { mech_core::SectionElement::MechCode(items) => items.iter().all(|(c, _)| matches!(c, mech_core::MechCode::Comment(_))), _ => false }))
+}
